@@ -2885,7 +2885,12 @@ Proof.
 Qed.
 
 Lemma Inv_sreg s : Inv s -> forall m b, inGraph (nd s m) = true -> scope (nd s m) = Some b -> inGraph (nd s b) = true.
-Proof. intros HI. apply scope_registered; try apply HI. apply (q_force s (inv_quiet s HI)). Qed.
+Proof.
+  intros HI. apply scope_registered;
+    first [apply (inv_edges s HI)|apply (inv_zero s HI)|apply (inv_nec s HI)|apply (inv_par s HI)
+          |apply (inv_height s HI)|apply (inv_obs s HI)|apply (q_force s (inv_quiet s HI))
+          |apply (inv_binds s HI)|apply (inv_kinds s HI)|apply (inv_scoping s HI)].
+Qed.
 
 Lemma BInv_TInv s : BInv [] s -> TInv [] noE s.
 Proof.
